@@ -129,6 +129,7 @@ Inductive out :=
    state *)
 
 Record srec := mkS {
+  s_id : N;                      (* stream.id *)
   s_state : state;               (* stream.state *)
   s_popen : bool;                (* is_pending_open: waits in pending_open for a concurrency slot *)
   s_ppush : bool;                (* is_pending_push: its PUSH_PROMISE is still queued on the parent *)
@@ -138,11 +139,17 @@ Record srec := mkS {
                                     (buffered_send_data > 0 with an empty queue): its END_STREAM flag *)
 }.
 
+(* The store: a slab of records reached by KEY (handles and queues hold keys) and the map store.ids from
+   stream id to key (what a received frame finds).  A record that is closed and flushed is unlinked from
+   store.ids while handles or queues may still hold its key; Inner::send_reset may then create a second
+   record of the same id.  Keys are the per-record serial numbers the hooks print: the key of a new record is
+   an observed input of the label that creates it. *)
 Record conn := mkC {
   c_role : role;
   c_push_local : bool;           (* recv.is_push_enabled: this endpoint accepts PUSH_PROMISE *)
   c_push_remote : bool;          (* send.is_push_enabled: the peer accepts PUSH_PROMISE *)
-  c_streams : list (N * srec);   (* store: id -> record *)
+  c_slab : list (N * srec);      (* store.slab: key -> record *)
+  c_ids : list (N * N);          (* store.ids: stream id -> key *)
   c_send_next : option N;        (* send.next_stream_id; None = overflowed *)
   c_recv_next : option N;        (* recv.next_stream_id *)
   c_send_max : N;                (* send.max_stream_id: lowered by the peer's GOAWAY *)
@@ -156,62 +163,78 @@ Inductive outcome :=
 | Stuck (n : N)
 | Panic (n : N).
 
-Definition new_rec : srec := mkS Idle false false false [] None.
+Definition new_rec (sid : N) : srec := mkS sid Idle false false false [] None.
 
-Definition set_state (r : srec) (s : state) : srec := mkS s (s_popen r) (s_ppush r) (s_rexp r) (s_q r) (s_infl r).
-Definition set_popen (r : srec) (b : bool) : srec := mkS (s_state r) b (s_ppush r) (s_rexp r) (s_q r) (s_infl r).
-Definition set_ppush (r : srec) (b : bool) : srec := mkS (s_state r) (s_popen r) b (s_rexp r) (s_q r) (s_infl r).
-Definition set_rexp (r : srec) (b : bool) : srec := mkS (s_state r) (s_popen r) (s_ppush r) b (s_q r) (s_infl r).
+Definition set_state (r : srec) (s : state) : srec := mkS (s_id r) s (s_popen r) (s_ppush r) (s_rexp r) (s_q r) (s_infl r).
+Definition set_popen (r : srec) (b : bool) : srec := mkS (s_id r) (s_state r) b (s_ppush r) (s_rexp r) (s_q r) (s_infl r).
+Definition set_ppush (r : srec) (b : bool) : srec := mkS (s_id r) (s_state r) (s_popen r) b (s_rexp r) (s_q r) (s_infl r).
+Definition set_rexp (r : srec) (b : bool) : srec := mkS (s_id r) (s_state r) (s_popen r) (s_ppush r) b (s_q r) (s_infl r).
 Definition set_q (r : srec) (q : list qframe) (i : option bool) : srec :=
-  mkS (s_state r) (s_popen r) (s_ppush r) (s_rexp r) q i.
+  mkS (s_id r) (s_state r) (s_popen r) (s_ppush r) (s_rexp r) q i.
 
-Fixpoint sget (sid : N) (l : list (N * srec)) : option srec :=
+Fixpoint sget {A} (k : N) (l : list (N * A)) : option A :=
   match l with
   | [] => None
-  | (k, r) :: l' => if k =? sid then Some r else sget sid l'
+  | (k', r) :: l' => if k' =? k then Some r else sget k l'
   end.
 
-Fixpoint sset (sid : N) (r : srec) (l : list (N * srec)) : list (N * srec) :=
+Fixpoint sset {A} (k : N) (r : A) (l : list (N * A)) : list (N * A) :=
   match l with
-  | [] => [(sid, r)]
-  | (k, x) :: l' => if k =? sid then (k, r) :: l' else (k, x) :: sset sid r l'
+  | [] => [(k, r)]
+  | (k', x) :: l' => if k' =? k then (k', r) :: l' else (k', x) :: sset k r l'
   end.
 
-Fixpoint sdel (sid : N) (l : list (N * srec)) : list (N * srec) :=
+Fixpoint sdel {A} (k : N) (l : list (N * A)) : list (N * A) :=
   match l with
   | [] => []
-  | (k, x) :: l' => if k =? sid then l' else (k, x) :: sdel sid l'
+  | (k', x) :: l' => if k' =? k then l' else (k', x) :: sdel k l'
   end.
 
-Definition with_streams (st : conn) (l : list (N * srec)) : conn :=
-  mkC (c_role st) (c_push_local st) (c_push_remote st) l (c_send_next st) (c_recv_next st)
+Definition with_slab (st : conn) (l : list (N * srec)) : conn :=
+  mkC (c_role st) (c_push_local st) (c_push_remote st) l (c_ids st) (c_send_next st) (c_recv_next st)
       (c_send_max st) (c_recv_max st) (c_refused st) (c_conn_error st).
-Definition put (st : conn) (sid : N) (r : srec) : conn := with_streams st (sset sid r (c_streams st)).
+Definition with_ids (st : conn) (l : list (N * N)) : conn :=
+  mkC (c_role st) (c_push_local st) (c_push_remote st) (c_slab st) l (c_send_next st) (c_recv_next st)
+      (c_send_max st) (c_recv_max st) (c_refused st) (c_conn_error st).
 Definition with_send_next (st : conn) (n : option N) : conn :=
-  mkC (c_role st) (c_push_local st) (c_push_remote st) (c_streams st) n (c_recv_next st)
+  mkC (c_role st) (c_push_local st) (c_push_remote st) (c_slab st) (c_ids st) n (c_recv_next st)
       (c_send_max st) (c_recv_max st) (c_refused st) (c_conn_error st).
 Definition with_recv_next (st : conn) (n : option N) : conn :=
-  mkC (c_role st) (c_push_local st) (c_push_remote st) (c_streams st) (c_send_next st) n
+  mkC (c_role st) (c_push_local st) (c_push_remote st) (c_slab st) (c_ids st) (c_send_next st) n
       (c_send_max st) (c_recv_max st) (c_refused st) (c_conn_error st).
 Definition with_send_max (st : conn) (n : N) : conn :=
-  mkC (c_role st) (c_push_local st) (c_push_remote st) (c_streams st) (c_send_next st) (c_recv_next st)
+  mkC (c_role st) (c_push_local st) (c_push_remote st) (c_slab st) (c_ids st) (c_send_next st) (c_recv_next st)
       n (c_recv_max st) (c_refused st) (c_conn_error st).
 Definition with_recv_max (st : conn) (n : N) : conn :=
-  mkC (c_role st) (c_push_local st) (c_push_remote st) (c_streams st) (c_send_next st) (c_recv_next st)
+  mkC (c_role st) (c_push_local st) (c_push_remote st) (c_slab st) (c_ids st) (c_send_next st) (c_recv_next st)
       (c_send_max st) n (c_refused st) (c_conn_error st).
 Definition with_refused (st : conn) (o : option N) : conn :=
-  mkC (c_role st) (c_push_local st) (c_push_remote st) (c_streams st) (c_send_next st) (c_recv_next st)
+  mkC (c_role st) (c_push_local st) (c_push_remote st) (c_slab st) (c_ids st) (c_send_next st) (c_recv_next st)
       (c_send_max st) (c_recv_max st) o (c_conn_error st).
 Definition with_conn_error (st : conn) (o : option perror) : conn :=
-  mkC (c_role st) (c_push_local st) (c_push_remote st) (c_streams st) (c_send_next st) (c_recv_next st)
+  mkC (c_role st) (c_push_local st) (c_push_remote st) (c_slab st) (c_ids st) (c_send_next st) (c_recv_next st)
       (c_send_max st) (c_recv_max st) (c_refused st) o.
 Definition with_push_remote (st : conn) (b : bool) : conn :=
-  mkC (c_role st) (c_push_local st) b (c_streams st) (c_send_next st) (c_recv_next st)
+  mkC (c_role st) (c_push_local st) b (c_slab st) (c_ids st) (c_send_next st) (c_recv_next st)
       (c_send_max st) (c_recv_max st) (c_refused st) (c_conn_error st).
+
+(* by key: resolve *)
+Definition kget (st : conn) (k : N) : option srec := sget k (c_slab st).
+Definition put (st : conn) (k : N) (r : srec) : conn := with_slab st (sset k r (c_slab st)).
+(* by stream id: store.find_mut / find_entry *)
+Definition iget (st : conn) (sid : N) : option (N * srec) :=
+  match sget sid (c_ids st) with
+  | Some k => match kget st k with Some r => Some (k, r) | None => None end
+  | None => None
+  end.
+(* store.insert: a new record under a fresh key, linked under its id *)
+Definition insert (st : conn) (k : N) (r : srec) : conn :=
+  with_ids (put st k r) (sset (s_id r) k (c_ids st)).
+Definition is_linked (st : conn) (k : N) : bool := existsb (fun p => snd p =? k) (c_ids st).
 
 (* Config: role, local_push_enabled, local_next_stream_id (1 for a client, 2 for a server) *)
 Definition init (r : role) (push_local : bool) : conn :=
-  mkC r push_local true [] (Some (if is_server r then 2 else 1)) (Some (if is_server r then 1 else 2))
+  mkC r push_local true [] [] (Some (if is_server r then 2 else 1)) (Some (if is_server r then 1 else 2))
       MAX_ID MAX_ID None None.
 
 (* ---------------------------------------------------------------------------------------------
@@ -378,39 +401,40 @@ Record popobs := mkPop {
 }.
 
 Inductive label :=
-(* received frames (DynStreams::recv_*, one per frame the codec yields) *)
-| LRecvHeaders (sid : N) (eos info : bool) (o : hobs)
+(* received frames (DynStreams::recv_*, one per frame the codec yields); nk = key of a record the section inserts *)
+| LRecvHeaders (sid : N) (eos info : bool) (o : hobs) (nk : N)
 | LRecvData (sid : N) (eos : bool) (o : dobs)
 | LRecvReset (sid code : N) (o : robs)
 | LRecvWindowUpdate (sid : N) (o : wobs)
-| LRecvPushPromise (sid promised : N) (o : pobs)
+| LRecvPushPromise (sid promised : N) (o : pobs) (nk : N)
 | LRecvPriority (sid : N)
 | LRecvGoAway (last code : N) (debug : list N)
-| LRecvEof (relabel : list N)          (* streams in pending_send with a scheduled reset when the queues are cleared *)
+| LRecvEof (relabel : list N)          (* keys still in pending_send with a scheduled reset when the queues are cleared *)
 (* the connection's reactions (separate lock sections) *)
-| LPoll2Reset (sid code : N) (quota can : bool)        (* DynStreams::send_reset from handle_poll2_result *)
+| LPoll2Reset (sid code : N) (quota can : bool) (nk : N)   (* DynStreams::send_reset from handle_poll2_result *)
 | LHandleError (e : perror)                            (* DynStreams::handle_error *)
 | LGoAwaySent (last : N)                               (* DynStreams::send_go_away *)
 | LSendRefusal                                         (* Recv::send_pending_refusal with room in the codec *)
 | LRemoteSettingsPush (b : bool)                       (* SETTINGS_ENABLE_PUSH from the peer *)
-(* API *)
-| LSendRequest (eos : bool) (rejected hdr_ok : bool)
-| LSendResponse (sid : N) (eos : bool) (hdr_ok : bool)     (* send_response and send_pushed_response *)
-| LSendInfo (sid : N) (eos : bool) (hdr_ok : bool)
-| LSendData (sid : N) (eos : bool) (too_big : bool)
-| LSendTrailers (sid : N) (hdr_ok : bool)
-| LPushRequest (sid : N) (convert_ok hdr_ok : bool)
-| LSendReset (sid code : N) (can : bool)
-| LDropLast (sid : N) (can : bool) (kids : list (N * bool))   (* ref_count reaches 0; un-polled promises *)
-| LPollRecv (sid : N)                                   (* a read with an empty event queue: ensure_recv_open *)
-| LPollReset (sid : N) (mode : poll_reset)
-(* internal *)
-| LPop (sid : N) (o : popobs)                           (* pop_frame yields this stream *)
-| LReclaim (sid : N)                                    (* push_back_frame of the remainder *)
-| LOpenPending (sid : N)                                (* pop_pending_open *)
-| LExpire (sid : N)                                     (* leaves pending_reset_expired *)
-| LSendWindowUpdate (sid : N) (has : bool)              (* send_stream_window_updates pops this stream *)
-| LForget (sid : N).                                    (* the record is released (store.remove) *)
+(* API: a handle holds the KEY k of its record *)
+| LSendRequest (eos : bool) (rejected hdr_ok : bool) (nk : N)
+| LSendResponse (k : N) (eos : bool) (hdr_ok : bool)       (* send_response and send_pushed_response *)
+| LSendInfo (k : N) (eos : bool) (hdr_ok : bool)
+| LSendData (k : N) (eos : bool) (too_big : bool)
+| LSendTrailers (k : N) (hdr_ok : bool)
+| LPushRequest (k : N) (convert_ok hdr_ok : bool) (nk : N)
+| LSendReset (k code : N) (can : bool)
+| LDropLast (k : N) (can : bool) (kids : list (N * bool))  (* ref_count reaches 0; keys of the un-polled promises *)
+| LPollRecv (k : N)                                     (* a read with an empty event queue: ensure_recv_open *)
+| LPollReset (k : N) (mode : poll_reset)
+(* internal: the queues hold keys *)
+| LPop (k : N) (o : popobs)                             (* pop_frame yields this record *)
+| LReclaim (k : N)                                      (* push_back_frame of the remainder *)
+| LOpenPending (k : N)                                  (* pop_pending_open *)
+| LExpire (k : N)                                       (* leaves pending_reset_expired *)
+| LSendWindowUpdate (k : N) (has : bool)                (* send_stream_window_updates pops this record *)
+| LUnlink (k : N)                                       (* transition_after: Ptr::unlink (removes store.ids[stream.id]) *)
+| LRelease (k : N).                                     (* store.remove *)
 
 Definition res1 (st : conn) (o : list out) (r : result) : outcome := Ok st (o ++ [ORes r]).
 
@@ -461,42 +485,47 @@ Definition recv_trailers_core (sid : N) (o : hobs) (r : srec) : srec * list out 
   | _ => (r, [], RErr (lib_reset sid PROTOCOL_ERROR))      (* declared content-length not exhausted *)
   end.
 
-Definition step_recv_headers (st : conn) (sid : N) (eos info : bool) (o : hobs) : outcome :=
+(* the part of Inner::recv_headers after the record is found or made; `ins` = it has just been made *)
+Definition recv_headers_on (st : conn) (sid : N) (eos info : bool) (o : hobs) (k : N) (r : srec) (ins : bool)
+  : outcome :=
+  let o0 := if ins then [OOpened sid] else [] in
+  let wr := fun r' => if ins then insert st k r' else put st k r' in
+  if s_popen r then res1 (wr r) o0 (RErr conn_proto)
+  else if is_local_error (s_state r) then res1 (wr r) o0 RIgnored
+  else if is_recv_headers (s_state r) then
+    match recv_headers_core (c_role st) sid eos info o r with
+    | None => Panic 1
+    | Some (r1, o1, res) =>
+      let '(r2, o2, res2) := reset_on_recv_stream_err sid res (h_quota o) (h_can_reset o) r1 in
+      res1 (wr r2) (o0 ++ o1 ++ o2) res2
+    end
+  else if negb eos then
+    (* trailers without END_STREAM: returned from inside the closure, the reset is left to the caller *)
+    res1 (wr r) (o0 ++ [ORxRefused sid]) (RErr (lib_reset sid PROTOCOL_ERROR))
+  else
+    let '(r1, o1, res) := recv_trailers_core sid o r in
+    let '(r2, o2, res2) := reset_on_recv_stream_err sid res (h_quota o) (h_can_reset o) r1 in
+    res1 (wr r2) (o0 ++ o1 ++ o2) res2.
+
+Definition step_recv_headers (st : conn) (sid : N) (eos info : bool) (o : hobs) (nk : N) : outcome :=
   if sid =? 0 then Stuck 1                                 (* refused by frame::Headers::load *)
   else if c_recv_max st <? sid then res1 st [] RIgnored
   else
-    let found :=
-      match sget sid (c_streams st) with
-      | Some r => inl (st, r, @nil out)
-      | None =>
-        if negb (is_server (c_role st)) && may_have_forgotten st sid
-        then inr (res1 st [ORxRefused sid] (RErr (lib_reset sid STREAM_CLOSED)))
-        else match recv_open_id st sid false (h_can_open o) with
-             | OpStuck => inr (Stuck 2)
-             | OpErr e => inr (res1 st [] (RErr e))
-             | OpRefused st1 => inr (res1 st1 [ORxRefused sid] RIgnored)
-             | OpOpened st1 => inl (st1, new_rec, [OOpened sid])
+    match iget st sid with
+    | Some (k, r) => recv_headers_on st sid eos info o k r false
+    | None =>
+      if negb (is_server (c_role st)) && may_have_forgotten st sid
+      then res1 st [ORxRefused sid] (RErr (lib_reset sid STREAM_CLOSED))
+      else match recv_open_id st sid false (h_can_open o) with
+           | OpStuck => Stuck 2
+           | OpErr e => res1 st [] (RErr e)
+           | OpRefused st1 => res1 st1 [ORxRefused sid] RIgnored
+           | OpOpened st1 =>
+             match kget st1 nk with
+             | Some _ => Stuck 40                         (* the key of a new record is fresh *)
+             | None => recv_headers_on st1 sid eos info o nk (new_rec sid) true
              end
-      end in
-    match found with
-    | inr x => x
-    | inl (st1, r, o0) =>
-      if s_popen r then res1 (put st1 sid r) o0 (RErr conn_proto)
-      else if is_local_error (s_state r) then res1 (put st1 sid r) o0 RIgnored
-      else if is_recv_headers (s_state r) then
-        match recv_headers_core (c_role st) sid eos info o r with
-        | None => Panic 1
-        | Some (r1, o1, res) =>
-          let '(r2, o2, res2) := reset_on_recv_stream_err sid res (h_quota o) (h_can_reset o) r1 in
-          res1 (put st1 sid r2) (o0 ++ o1 ++ o2) res2
-        end
-      else if negb eos then
-        (* trailers without END_STREAM: returned from inside the closure, the reset is left to the caller *)
-        res1 (put st1 sid r) (o0 ++ [ORxRefused sid]) (RErr (lib_reset sid PROTOCOL_ERROR))
-      else
-        let '(r1, o1, res) := recv_trailers_core sid o r in
-        let '(r2, o2, res2) := reset_on_recv_stream_err sid res (h_quota o) (h_can_reset o) r1 in
-        res1 (put st1 sid r2) (o0 ++ o1 ++ o2) res2
+           end
     end.
 
 (* ---------------------------------------------------------------------------------------------
@@ -538,7 +567,7 @@ Definition too_many_data_frames : perror := EGoAway TOO_MANY_DATA_FRAMES ENHANCE
 Definition step_recv_data (st : conn) (sid : N) (eos : bool) (o : dobs) : outcome :=
   if sid =? 0 then Stuck 3                                 (* refused by frame::Data::load *)
   else
-    match sget sid (c_streams st) with
+    match iget st sid with
     | None =>
       if c_recv_max st <? sid then res1 st [] (ignore_data o)
       else if may_have_forgotten st sid then
@@ -547,7 +576,7 @@ Definition step_recv_data (st : conn) (sid : N) (eos : bool) (o : dobs) : outcom
         | _ => res1 st [ORxRefused sid] (RErr (lib_reset sid STREAM_CLOSED))
         end
       else res1 st [] (RErr conn_proto)
-    | Some r =>
+    | Some (k, r) =>
       let '(r1, o1, res) := recv_data_core sid eos o r in
       (* `if res.is_ok() && !is_end_stream`: an ignored frame counts against the budget as well *)
       let res1' := match res with
@@ -555,7 +584,7 @@ Definition step_recv_data (st : conn) (sid : N) (eos : bool) (o : dobs) : outcom
                    | x => x
                    end in
       let '(r2, o2, res2) := reset_on_recv_stream_err sid res1' (d_quota o) (d_can_reset o) r1 in
-      res1 (put st sid r2) (o1 ++ o2) res2
+      res1 (put st k r2) (o1 ++ o2) res2
     end.
 
 (* ---------------------------------------------------------------------------------------------
@@ -567,23 +596,23 @@ Definition step_recv_reset (st : conn) (sid code : N) (o : robs) : outcome :=
   if sid =? 0 then res1 st [] (RErr conn_proto)
   else if c_recv_max st <? sid then res1 st [] RIgnored
   else
-    match sget sid (c_streams st) with
+    match iget st sid with
     | None => if not_idle st sid then res1 st [] RIgnored else res1 st [] (RErr conn_proto)
-    | Some r =>
+    | Some (k, r) =>
       if s_popen r && negb (is_server (c_role st)) then res1 st [] (RErr conn_proto)
       else if negb (r_quota o) then res1 st [] (RErr too_many_resets)
       else
         let r1 := set_state r (fst (recv_reset sid code (r_queued o) (s_state r))) in
         let '(r2, o2) := clear_queue sid r1 in                   (* send.handle_error *)
-        res1 (put st sid r2) (ORx sid (RxReset code) :: o2) ROk
+        res1 (put st k r2) (ORx sid (RxReset code) :: o2) ROk
     end.
 
 Definition step_recv_window_update (st : conn) (sid : N) (o : wobs) : outcome :=
   if sid =? 0 then Stuck 4                                 (* connection window: not part of this model *)
   else
-    match sget sid (c_streams st) with
+    match iget st sid with
     | None => if not_idle st sid then res1 st [] RIgnored else res1 st [] (RErr conn_proto)
-    | Some r =>
+    | Some (k, r) =>
       if s_popen r && negb (is_server (c_role st)) then res1 st [] (RErr conn_proto)
       else if w_overflow o then
         (* Send::recv_stream_window_update resets the stream itself, then the error goes through
@@ -591,16 +620,16 @@ Definition step_recv_window_update (st : conn) (sid : N) (o : wobs) : outcome :=
         let '(r1, o1) := send_reset_core sid FLOW_CONTROL_ERROR Library r in
         let '(r2, o2, res2) := reset_on_recv_stream_err sid (RErr (lib_reset sid FLOW_CONTROL_ERROR))
                                                         (w_quota o) (w_can_reset o) r1 in
-        res1 (put st sid r2) (o1 ++ o2) res2
+        res1 (put st k r2) (o1 ++ o2) res2
       else res1 st [] ROk
     end.
 
-Definition step_recv_push_promise (st : conn) (sid promised : N) (o : pobs) : outcome :=
+Definition step_recv_push_promise (st : conn) (sid promised : N) (o : pobs) (nk : N) : outcome :=
   if sid =? 0 then Stuck 5                                 (* refused by frame::PushPromise::load *)
   else
-    match sget sid (c_streams st) with
+    match iget st sid with
     | None => res1 st [] (RErr conn_proto)
-    | Some r =>
+    | Some (_, r) =>
       if c_recv_max st <? sid then res1 st [] RIgnored
       else if is_local_error (s_state r) then
         (* the parent was reset locally: the promised stream is refused (repair 631577b) *)
@@ -617,17 +646,21 @@ Definition step_recv_push_promise (st : conn) (sid promised : N) (o : pobs) : ou
             | OpErr e => res1 st [] (RErr e)
             | OpRefused st1 => res1 st1 [ORxRefused promised] RIgnored
             | OpOpened st1 =>
-              match reserve_remote (s_state new_rec) with
-              | (s1, RUnit) =>
-                let c1 := set_state new_rec s1 in
-                let rx := [OOpened promised; ORx promised RxPromised] in
-                if p_valid o then res1 (put st1 promised c1) (rx ++ [OApp promised APush]) ROk
-                else
-                  let '(c2, o2, res2) :=
-                    reset_on_recv_stream_err promised (RErr (lib_reset promised PROTOCOL_ERROR))
-                                             (p_quota o) (p_can_reset o) c1 in
-                  res1 (put st1 promised c2) (rx ++ o2) res2
-              | _ => Panic 2
+              match kget st1 nk with
+              | Some _ => Stuck 41
+              | None =>
+                match reserve_remote (s_state (new_rec promised)) with
+                | (s1, RUnit) =>
+                  let c1 := set_state (new_rec promised) s1 in
+                  let rx := [OOpened promised; ORx promised RxPromised] in
+                  if p_valid o then res1 (insert st1 nk c1) (rx ++ [OApp promised APush]) ROk
+                  else
+                    let '(c2, o2, res2) :=
+                      reset_on_recv_stream_err promised (RErr (lib_reset promised PROTOCOL_ERROR))
+                                               (p_quota o) (p_can_reset o) c1 in
+                    res1 (insert st1 nk c2) (rx ++ o2) res2
+                | _ => Panic 2
+                end
               end
             end
         | _ => res1 st [] (RErr conn_proto)
@@ -635,64 +668,75 @@ Definition step_recv_push_promise (st : conn) (sid promised : N) (o : pobs) : ou
     end.
 
 (* recv.handle_error + send.handle_error on one record *)
-Definition fail_rec (e : perror) (kr : N * srec) : N * srec :=
-  let '(k, r) := kr in
-  (k, set_q (set_state r (fst (handle_error e (s_state r)))) [] None).
+Definition fail_rec (e : perror) (r : srec) : srec :=
+  set_q (set_state r (fst (handle_error e (s_state r)))) [] None.
+
+(* store.for_each visits the records linked in store.ids *)
+Definition map_linked (st : conn) (f : N -> srec -> srec) : list (N * srec) :=
+  map (fun kr => if is_linked st (fst kr) then (fst kr, f (fst kr) (snd kr)) else kr) (c_slab st).
 
 Definition step_recv_go_away (st : conn) (last code : N) (debug : list N) : outcome :=
   if c_send_max st <? last then res1 st [] (RErr conn_proto)
   else
     let e := EGoAway debug code Remote in
     let ro := c_role st in
-    let l := map (fun kr => if (last <? fst kr) && is_local_init ro (fst kr) then fail_rec e kr else kr)
-                 (c_streams st) in
-    res1 (with_conn_error (with_streams (with_send_max st last) l) (Some e)) [] ROk.
+    let l := map_linked st (fun _ r => if (last <? s_id r) && is_local_init ro (s_id r) then fail_rec e r else r) in
+    res1 (with_conn_error (with_slab (with_send_max st last) l) (Some e)) [] ROk.
 
 Definition step_handle_error (st : conn) (e : perror) : outcome :=
-  res1 (with_conn_error (with_streams st (map (fail_rec e) (c_streams st))) (Some e)) [] ROk.
+  res1 (with_conn_error (with_slab st (map_linked st (fun _ r => fail_rec e r))) (Some e)) [] ROk.
 
 Definition conn_eof_error : perror := EIo IO_BROKEN_PIPE (Some CONN_EOF_MSG).
 
 Fixpoint mem_N (x : N) (l : list N) : bool :=
   match l with [] => false | y :: l' => (x =? y) || mem_N x l' end.
 
-(* Inner::recv_eof: every record gets recv_eof + clear_queue; clear_queues empties pending_reset_expired and
-   pending_open, and turns the scheduled resets of the streams still in pending_send into library resets *)
-Definition eof_rec (relabel : list N) (kr : N * srec) : N * srec :=
+(* Inner::recv_eof: every linked record gets recv_eof + clear_queue; clear_queues empties pending_reset_expired and
+   pending_open (every record, linked or not), and turns the scheduled resets of the records still in pending_send
+   into library resets *)
+Definition eof_rec (relabel : list N) (k : N) (r : srec) : srec :=
+  set_q (set_state r (fst (recv_eof (s_state r)))) [] None.
+
+Definition unqueue_rec (relabel : list N) (kr : N * srec) : N * srec :=
   let '(k, r) := kr in
-  let s1 := fst (recv_eof (s_state r)) in
-  let s2 := match get_scheduled_reset s1 with
-            | Some reason => if mem_N k relabel then Closed (CError (EReset k reason Library)) else s1
-            | None => s1
+  let s2 := match get_scheduled_reset (s_state r) with
+            | Some reason => if mem_N k relabel then Closed (CError (EReset (s_id r) reason Library)) else s_state r
+            | None => s_state r
             end in
-  (k, mkS s2 false (s_ppush r) false [] None).
+  (k, mkS (s_id r) s2 false (s_ppush r) false (s_q r) (s_infl r)).
 
 Definition step_recv_eof (st : conn) (relabel : list N) : outcome :=
   let st1 := match c_conn_error st with
              | None => with_conn_error st (Some conn_eof_error)
              | Some _ => st
              end in
-  res1 (with_streams st1 (map (eof_rec relabel) (c_streams st1))) [] ROk.
+  res1 (with_slab st1 (map (unqueue_rec relabel) (map_linked st1 (eof_rec relabel)))) [] ROk.
 
 (* ---------------------------------------------------------------------------------------------
    the connection's reactions *)
 
 (* Inner::send_reset, called by handle_poll2_result for Err(Error::Reset(id, reason, Library)) *)
-Definition step_poll2_reset (st : conn) (sid code : N) (quota can : bool) : outcome :=
+Definition step_poll2_reset (st : conn) (sid code : N) (quota can : bool) (nk : N) : outcome :=
   if sid =? 0 then Stuck 7
   else
-    let '(st1, r, o0) :=
-      match sget sid (c_streams st) with
-      | Some r => (st, r, @nil out)
+    match iget st sid with
+    | Some (k, r) =>
+      match actions_send_reset sid code Library quota can r with
+      | None => res1 st [] (RErr too_many_internal_resets)
+      | Some (r1, o1) => res1 (put st k r1) o1 ROk
+      end
+    | None =>
+      let st1 := if is_local_init (c_role st) sid
+                 then with_send_next st (bump_next (c_send_next st) sid)
+                 else with_recv_next st (bump_next (c_recv_next st) sid) in
+      match kget st1 nk with
+      | Some _ => Stuck 42
       | None =>
-        let st1 := if is_local_init (c_role st) sid
-                   then with_send_next st (bump_next (c_send_next st) sid)
-                   else with_recv_next st (bump_next (c_recv_next st) sid) in
-        (st1, new_rec, [OOpened sid])
-      end in
-    match actions_send_reset sid code Library quota can r with
-    | None => res1 (put st1 sid r) o0 (RErr too_many_internal_resets)
-    | Some (r1, o1) => res1 (put st1 sid r1) (o0 ++ o1) ROk
+        match actions_send_reset sid code Library quota can (new_rec sid) with
+        | None => res1 (insert st1 nk (new_rec sid)) [OOpened sid] (RErr too_many_internal_resets)
+        | Some (r1, o1) => res1 (insert st1 nk r1) (OOpened sid :: o1) ROk
+        end
+      end
     end.
 
 Definition step_go_away_sent (st : conn) (last : N) : outcome :=
@@ -718,7 +762,7 @@ Definition send_headers_core (ro : role) (sid : N) (eos : bool) (r : srec) : opt
   | _ => None
   end.
 
-Definition step_send_request (st : conn) (eos rejected hdr_ok : bool) : outcome :=
+Definition step_send_request (st : conn) (eos rejected hdr_ok : bool) (nk : N) : outcome :=
   match c_conn_error st with
   | Some e => res1 st [] (RErr e)
   | None =>
@@ -731,42 +775,42 @@ Definition step_send_request (st : conn) (eos rejected hdr_ok : bool) : outcome 
         let st1 := with_send_next st (next_id id) in       (* Send::open *)
         if negb hdr_ok then res1 st1 [] (RUser UMalformedHeaders)   (* the identifier is spent *)
         else
-          match sget id (c_streams st1) with
-          | Some _ => Stuck 8                              (* a fresh identifier is not in the store *)
+          match kget st1 nk with
+          | Some _ => Stuck 8
           | None =>
-            match send_headers_core (c_role st) id eos new_rec with
-            | Some (r1, o1) => res1 (put st1 id r1) (OOpened id :: o1) ROk
+            match send_headers_core (c_role st) id eos (new_rec id) with
+            | Some (r1, o1) => res1 (insert st1 nk r1) (OOpened id :: o1) ROk
             | None => Panic 4
             end
           end
     end
   end.
 
-Definition step_send_response (st : conn) (sid : N) (eos hdr_ok : bool) : outcome :=
-  match sget sid (c_streams st) with
-  | None => Stuck 9                                        (* a handle keeps its record in the store *)
+Definition step_send_response (st : conn) (k : N) (eos hdr_ok : bool) : outcome :=
+  match kget st k with
+  | None => Stuck 9                                        (* a handle keeps its record in the slab *)
   | Some r =>
     if negb hdr_ok then res1 st [] (RUser UMalformedHeaders)
-    else match send_headers_core (c_role st) sid eos r with
-         | Some (r1, o1) => res1 (put st sid r1) o1 ROk
+    else match send_headers_core (c_role st) (s_id r) eos r with
+         | Some (r1, o1) => res1 (put st k r1) o1 ROk
          | None => res1 st [] (RUser UUnexpectedFrameType)
          end
   end.
 
-Definition step_send_info (st : conn) (sid : N) (eos hdr_ok : bool) : outcome :=
-  match sget sid (c_streams st) with
+Definition step_send_info (st : conn) (k : N) (eos hdr_ok : bool) : outcome :=
+  match kget st k with
   | None => Stuck 10
   | Some r =>
-    if is_local_init (c_role st) sid then Stuck 11         (* only SendResponse has send_informational *)
+    if is_local_init (c_role st) (s_id r) then Stuck 11   (* only SendResponse has send_informational *)
     else if eos then res1 st [] (RUser UUnexpectedFrameType)
     else if negb hdr_ok then res1 st [] (RUser UMalformedHeaders)
     else if negb (is_send_awaiting_headers (s_state r)) then
       res1 st [] (RUser (if is_closed (s_state r) then UInactiveStreamId else UUnexpectedFrameType))
-    else let '(r1, o1) := queue_frame sid (QHeaders false true) r in res1 (put st sid r1) o1 ROk
+    else let '(r1, o1) := queue_frame (s_id r) (QHeaders false true) r in res1 (put st k r1) o1 ROk
   end.
 
-Definition step_send_data (st : conn) (sid : N) (eos too_big : bool) : outcome :=
-  match sget sid (c_streams st) with
+Definition step_send_data (st : conn) (k : N) (eos too_big : bool) : outcome :=
+  match kget st k with
   | None => Stuck 12
   | Some r =>
     if too_big then res1 st [] (RUser UPayloadTooBig)
@@ -775,13 +819,13 @@ Definition step_send_data (st : conn) (sid : N) (eos too_big : bool) : outcome :
     else
       match (if eos then send_close (s_state r) else (s_state r, RUnit)) with
       | (s1, RUnit) =>
-        let '(r1, o1) := queue_frame sid (QData eos) (set_state r s1) in res1 (put st sid r1) o1 ROk
+        let '(r1, o1) := queue_frame (s_id r) (QData eos) (set_state r s1) in res1 (put st k r1) o1 ROk
       | _ => Panic 5
       end
   end.
 
-Definition step_send_trailers (st : conn) (sid : N) (hdr_ok : bool) : outcome :=
-  match sget sid (c_streams st) with
+Definition step_send_trailers (st : conn) (k : N) (hdr_ok : bool) : outcome :=
+  match kget st k with
   | None => Stuck 13
   | Some r =>
     if negb hdr_ok then res1 st [] (RUser UMalformedHeaders)
@@ -789,17 +833,17 @@ Definition step_send_trailers (st : conn) (sid : N) (hdr_ok : bool) : outcome :=
     else
       match send_close (s_state r) with
       | (s1, RUnit) =>
-        let '(r1, o1) := queue_frame sid QTrailers (set_state r s1) in res1 (put st sid r1) o1 ROk
+        let '(r1, o1) := queue_frame (s_id r) QTrailers (set_state r s1) in res1 (put st k r1) o1 ROk
       | _ => Panic 6
       end
   end.
 
 (* StreamRef::send_push_promise *)
-Definition step_push_request (st : conn) (sid : N) (convert_ok hdr_ok : bool) : outcome :=
-  match sget sid (c_streams st) with
+Definition step_push_request (st : conn) (k : N) (convert_ok hdr_ok : bool) (nk : N) : outcome :=
+  match kget st k with
   | None => Stuck 14
-  | Some _ =>
-    if negb (is_server (c_role st)) || is_local_init (c_role st) sid then Stuck 15   (* only SendResponse has push_request *)
+  | Some parent =>
+    if negb (is_server (c_role st)) || is_local_init (c_role st) (s_id parent) then Stuck 15   (* only SendResponse has push_request *)
     else
       (* Send::reserve_local *)
       match c_send_next st with
@@ -808,28 +852,21 @@ Definition step_push_request (st : conn) (sid : N) (convert_ok hdr_ok : bool) : 
         if c_send_max st <? id then res1 st [] (RUser URejected)
         else
           let st1 := with_send_next st (next_id id) in
-          match sget id (c_streams st1) with
+          match kget st1 nk with
           | Some _ => Stuck 16
           | None =>
-            match reserve_local (s_state new_rec) with
+            match reserve_local (s_state (new_rec id)) with
             | (s1, RUnit) =>
-              let child := set_ppush (set_state new_rec s1) true in
-              let st2 := put st1 id child in
+              let child := set_ppush (set_state (new_rec id) s1) true in
               (* convert_push_message fails: `?` returns with the child record left in the store *)
-              if negb convert_ok then res1 st2 [OOpened id] (RUser UMalformedHeaders)
-              else
-                match sget sid (c_streams st2) with
-                | None => Stuck 17
-                | Some parent =>
-                  let undo := with_streams st2 (sdel id (c_streams st2)) in
-                  (* Send::send_push_promise *)
-                  if negb (c_push_remote st) then res1 undo [] (RUser UPeerDisabledServerPush)
-                  else if is_send_closed (s_state parent) then
-                    res1 undo [] (RUser (if is_closed (s_state parent) then UInactiveStreamId else UUnexpectedFrameType))
-                  else if negb hdr_ok then res1 undo [] (RUser UMalformedHeaders)
-                  else let '(p1, o1) := queue_frame sid (QPush id) parent in
-                       res1 (put st2 sid p1) (OOpened id :: o1) ROk
-                end
+              if negb convert_ok then res1 (insert st1 nk child) [OOpened id] (RUser UMalformedHeaders)
+              (* Send::send_push_promise; on an error the child is unlinked and removed again *)
+              else if negb (c_push_remote st) then res1 st1 [] (RUser UPeerDisabledServerPush)
+              else if is_send_closed (s_state parent) then
+                res1 st1 [] (RUser (if is_closed (s_state parent) then UInactiveStreamId else UUnexpectedFrameType))
+              else if negb hdr_ok then res1 st1 [] (RUser UMalformedHeaders)
+              else let '(p1, o1) := queue_frame (s_id parent) (QPush id) parent in
+                   res1 (put (insert st1 nk child) k p1) (OOpened id :: o1) ROk
             | _ => Panic 7
             end
           end
@@ -837,12 +874,12 @@ Definition step_push_request (st : conn) (sid : N) (convert_ok hdr_ok : bool) : 
   end.
 
 (* StreamRef::send_reset: Actions::send_reset with Initiator::User *)
-Definition step_send_reset (st : conn) (sid code : N) (can : bool) : outcome :=
-  match sget sid (c_streams st) with
+Definition step_send_reset (st : conn) (k code : N) (can : bool) : outcome :=
+  match kget st k with
   | None => Stuck 18
   | Some r =>
-    match actions_send_reset sid code User true can r with
-    | Some (r1, o1) => res1 (put st sid r1) o1 ROk
+    match actions_send_reset (s_id r) code User true can r with
+    | Some (r1, o1) => res1 (put st k r1) o1 ROk
     | None => Panic 8                                      (* unreachable!("Initiator::User should not error sending reset") *)
     end
   end.
@@ -855,122 +892,129 @@ Fixpoint cancel_kids (ro : role) (kids : list (N * bool)) (l : list (N * srec)) 
   end.
 
 (* drop_stream_ref when the reference count reaches zero *)
-Definition step_drop_last (st : conn) (sid : N) (can : bool) (kids : list (N * bool)) : outcome :=
-  match sget sid (c_streams st) with
+Definition step_drop_last (st : conn) (k : N) (can : bool) (kids : list (N * bool)) : outcome :=
+  match kget st k with
   | None => Stuck 19
   | Some r =>
-    let l1 := sset sid (maybe_cancel (c_role st) can r) (c_streams st) in
-    Ok (with_streams st (cancel_kids (c_role st) kids l1)) []
+    let l1 := sset k (maybe_cancel (c_role st) can r) (c_slab st) in
+    Ok (with_slab st (cancel_kids (c_role st) kids l1)) []
   end.
 
-Definition step_poll_recv (st : conn) (sid : N) : outcome :=
-  match sget sid (c_streams st) with
+Definition step_poll_recv (st : conn) (k : N) : outcome :=
+  match kget st k with
   | None => Stuck 20
-  | Some r => Ok st [OSurface sid (ensure_recv_open (s_state r))]
+  | Some r => Ok st [OSurface (s_id r) (ensure_recv_open (s_state r))]
   end.
 
-Definition step_poll_reset (st : conn) (sid : N) (mode : poll_reset) : outcome :=
-  match sget sid (c_streams st) with
+Definition step_poll_reset (st : conn) (k : N) (mode : poll_reset) : outcome :=
+  match kget st k with
   | None => Stuck 21
-  | Some r => Ok st [OSurface sid (ensure_reason mode (s_state r))]
+  | Some r => Ok st [OSurface (s_id r) (ensure_reason mode (s_state r))]
   end.
 
 (* ---------------------------------------------------------------------------------------------
    internal: what leaves the queues *)
 
-(* Prioritize::pop_frame on the stream the pending_send queue yields *)
-Definition step_pop (st : conn) (sid : N) (o : popobs) : outcome :=
-  match sget sid (c_streams st) with
+(* Prioritize::pop_frame on the record the pending_send queue yields *)
+Definition step_pop (st : conn) (k : N) (o : popobs) : outcome :=
+  match kget st k with
   | None => Stuck 22
   | Some r =>
+    let sid := s_id r in
     if s_popen r || s_ppush r then Stuck 23               (* not is_send_ready: never in pending_send *)
     else
       match s_q r with
       | QData eos :: q' =>
+        let send :=
+          match s_infl r with
+          | Some _ => Stuck 24                             (* reclaim_frame precedes the next pop *)
+          | None =>
+            if pp_blocked o then Ok st []
+            else if pp_partial o then Ok (put st k (set_q r q' (Some eos))) [OEmit (WFrame sid (QData false))]
+            else Ok (put st k (set_q r q' None)) [OEmit (WFrame sid (QData eos))]
+          end in
         match get_scheduled_reset (s_state r) with
         | Some reason =>
           if negb (reason =? NO_ERROR) then
             (* discard the buffered DATA, the None arm emits the RST_STREAM on a later visit *)
-            let '(r1, o1) := clear_queue sid r in Ok (put st sid r1) o1
-          else
-            match s_infl r with
-            | Some _ => Stuck 24                           (* reclaim_frame precedes the next pop *)
-            | None =>
-              if pp_blocked o then Ok st []
-              else if pp_partial o then Ok (put st sid (set_q r q' (Some eos))) [OEmit (WFrame sid (QData false))]
-              else Ok (put st sid (set_q r q' None)) [OEmit (WFrame sid (QData eos))]
-            end
-        | None =>
-          match s_infl r with
-          | Some _ => Stuck 24
-          | None =>
-            if pp_blocked o then Ok st []
-            else if pp_partial o then Ok (put st sid (set_q r q' (Some eos))) [OEmit (WFrame sid (QData false))]
-            else Ok (put st sid (set_q r q' None)) [OEmit (WFrame sid (QData eos))]
-          end
+            let '(r1, o1) := clear_queue sid r in Ok (put st k r1) o1
+          else send
+        | None => send
         end
       | QPush promised :: q' =>
-        let st1 := put st sid (set_q r q' (s_infl r)) in
-        match sget promised (c_streams st1) with
+        let st1 := put st k (set_q r q' (s_infl r)) in
+        match iget st1 promised with
         | None => Ok st1 []                                (* the promised stream is gone: the promise is dropped *)
-        | Some c =>
+        | Some (ck, c) =>
           let c1 := set_ppush c false in
           let c2 := match s_q c1 with
                     | [] => c1
                     | _ => if pp_can_send o then c1 else set_popen c1 true
                     end in
-          Ok (put st1 promised c2) [OEmit (WFrame sid (QPush promised))]
+          Ok (put st1 ck c2) [OEmit (WFrame sid (QPush promised))]
         end
-      | f :: q' => Ok (put st sid (set_q r q' (s_infl r))) [OEmit (WFrame sid f)]
+      | f :: q' => Ok (put st k (set_q r q' (s_infl r))) [OEmit (WFrame sid f)]
       | [] =>
         match get_scheduled_reset (s_state r) with
         | Some reason =>
-          Ok (put st sid (set_state r (Closed (CError (EReset sid reason Library)))))
+          Ok (put st k (set_state r (Closed (CError (EReset sid reason Library)))))
              [OEmit (WFrame sid (QReset reason))]
         | None => Ok st []                                 (* dangling entry of pending_send *)
         end
       end
   end.
 
-Definition step_reclaim (st : conn) (sid : N) : outcome :=
-  match sget sid (c_streams st) with
+Definition step_reclaim (st : conn) (k : N) : outcome :=
+  match kget st k with
   | None => Stuck 25
   | Some r =>
     match s_infl r with
-    | Some eos => Ok (put st sid (set_q r (QData eos :: s_q r) None)) []
+    | Some eos => Ok (put st k (set_q r (QData eos :: s_q r) None)) []
     | None => Stuck 26
     end
   end.
 
-Definition step_open_pending (st : conn) (sid : N) : outcome :=
-  match sget sid (c_streams st) with
+Definition step_open_pending (st : conn) (k : N) : outcome :=
+  match kget st k with
   | None => Stuck 27
-  | Some r => if s_popen r then Ok (put st sid (set_popen r false)) [] else Stuck 28
+  | Some r => if s_popen r then Ok (put st k (set_popen r false)) [] else Stuck 28
   end.
 
-Definition step_expire (st : conn) (sid : N) : outcome :=
-  match sget sid (c_streams st) with
+Definition step_expire (st : conn) (k : N) : outcome :=
+  match kget st k with
   | None => Stuck 29
-  | Some r => if s_rexp r then Ok (put st sid (set_rexp r false)) [] else Stuck 30
+  | Some r => if s_rexp r then Ok (put st k (set_rexp r false)) [] else Stuck 30
   end.
 
-Definition step_send_window_update (st : conn) (sid : N) (has : bool) : outcome :=
-  match sget sid (c_streams st) with
+Definition step_send_window_update (st : conn) (k : N) (has : bool) : outcome :=
+  match kget st k with
   | None => Stuck 31
   | Some r =>
-    if is_recv_streaming (s_state r) && has then Ok st [OEmit (WWindowUpdate sid)] else Ok st []
+    if is_recv_streaming (s_state r) && has then Ok st [OEmit (WWindowUpdate (s_id r))] else Ok st []
   end.
 
-(* Stream::is_released, as far as this model carries it *)
-Definition step_forget (st : conn) (sid : N) : outcome :=
-  match sget sid (c_streams st) with
+(* Stream::is_closed: the state is closed and every frame has left the queue and the codec *)
+Definition closed_full (r : srec) : bool :=
+  is_closed (s_state r) && (match s_q r with [] => true | _ => false end)
+  && (match s_infl r with None => true | _ => false end).
+
+(* Counts::transition_after: `if stream.is_closed() { if !stream.is_pending_reset_expiration() { stream.unlink() } }`.
+   Ptr::unlink removes store.ids[stream.id] - whatever record that entry names: when the record was unlinked
+   before and Inner::send_reset has since made a second record of the same id, the second one loses its link *)
+Definition step_unlink (st : conn) (k : N) : outcome :=
+  match kget st k with
   | None => Stuck 32
   | Some r =>
-    if is_closed (s_state r) && (match s_q r with [] => true | _ => false end)
-       && (match s_infl r with None => true | _ => false end)
-       && negb (s_rexp r) && negb (s_popen r)
-    then Ok (with_streams st (sdel sid (c_streams st))) []
-    else Stuck 33
+    if closed_full r && negb (s_rexp r) then Ok (with_ids st (sdel (s_id r) (c_ids st))) [] else Stuck 33
+  end.
+
+(* Stream::is_released as far as this model carries it, then store.remove (the slab entry is freed) *)
+Definition step_release (st : conn) (k : N) : outcome :=
+  match kget st k with
+  | None => Stuck 35
+  | Some r =>
+    if closed_full r && negb (s_rexp r) && negb (s_popen r) && negb (is_linked st k)
+    then Ok (with_slab st (sdel k (c_slab st))) [] else Stuck 36
   end.
 
 (* ---------------------------------------------------------------------------------------------
@@ -978,35 +1022,36 @@ Definition step_forget (st : conn) (sid : N) : outcome :=
 
 Definition step (st : conn) (l : label) : outcome :=
   match l with
-  | LRecvHeaders sid eos info o => step_recv_headers st sid eos info o
+  | LRecvHeaders sid eos info o nk => step_recv_headers st sid eos info o nk
   | LRecvData sid eos o => step_recv_data st sid eos o
   | LRecvReset sid code o => step_recv_reset st sid code o
   | LRecvWindowUpdate sid o => step_recv_window_update st sid o
-  | LRecvPushPromise sid promised o => step_recv_push_promise st sid promised o
+  | LRecvPushPromise sid promised o nk => step_recv_push_promise st sid promised o nk
   | LRecvPriority _ => res1 st [] ROk
   | LRecvGoAway last code debug => step_recv_go_away st last code debug
   | LRecvEof relabel => step_recv_eof st relabel
-  | LPoll2Reset sid code quota can => step_poll2_reset st sid code quota can
+  | LPoll2Reset sid code quota can nk => step_poll2_reset st sid code quota can nk
   | LHandleError e => step_handle_error st e
   | LGoAwaySent last => step_go_away_sent st last
   | LSendRefusal => step_send_refusal st
   | LRemoteSettingsPush b => Ok (with_push_remote st b) []
-  | LSendRequest eos rejected hdr_ok => step_send_request st eos rejected hdr_ok
-  | LSendResponse sid eos hdr_ok => step_send_response st sid eos hdr_ok
-  | LSendInfo sid eos hdr_ok => step_send_info st sid eos hdr_ok
-  | LSendData sid eos too_big => step_send_data st sid eos too_big
-  | LSendTrailers sid hdr_ok => step_send_trailers st sid hdr_ok
-  | LPushRequest sid convert_ok hdr_ok => step_push_request st sid convert_ok hdr_ok
-  | LSendReset sid code can => step_send_reset st sid code can
-  | LDropLast sid can kids => step_drop_last st sid can kids
-  | LPollRecv sid => step_poll_recv st sid
-  | LPollReset sid mode => step_poll_reset st sid mode
-  | LPop sid o => step_pop st sid o
-  | LReclaim sid => step_reclaim st sid
-  | LOpenPending sid => step_open_pending st sid
-  | LExpire sid => step_expire st sid
-  | LSendWindowUpdate sid has => step_send_window_update st sid has
-  | LForget sid => step_forget st sid
+  | LSendRequest eos rejected hdr_ok nk => step_send_request st eos rejected hdr_ok nk
+  | LSendResponse k eos hdr_ok => step_send_response st k eos hdr_ok
+  | LSendInfo k eos hdr_ok => step_send_info st k eos hdr_ok
+  | LSendData k eos too_big => step_send_data st k eos too_big
+  | LSendTrailers k hdr_ok => step_send_trailers st k hdr_ok
+  | LPushRequest k convert_ok hdr_ok nk => step_push_request st k convert_ok hdr_ok nk
+  | LSendReset k code can => step_send_reset st k code can
+  | LDropLast k can kids => step_drop_last st k can kids
+  | LPollRecv k => step_poll_recv st k
+  | LPollReset k mode => step_poll_reset st k mode
+  | LPop k o => step_pop st k o
+  | LReclaim k => step_reclaim st k
+  | LOpenPending k => step_open_pending st k
+  | LExpire k => step_expire st k
+  | LSendWindowUpdate k has => step_send_window_update st k has
+  | LUnlink k => step_unlink st k
+  | LRelease k => step_release st k
   end.
 
 (* run: the state after the labels and the log of all outputs, or the first label that is not Ok *)
@@ -1025,3 +1070,290 @@ Fixpoint run_from (st : conn) (log : list out) (i : N) (ls : list label) : run_r
   end.
 
 Definition run (st : conn) (ls : list label) : run_result := run_from st [] 0 ls.
+
+(* ---------------------------------------------------------------------------------------------
+   Correspondence (lib/props/parts/dispatch.py): the hook events of one connection run are projected to
+   labels; before every label the observed pre-state of the addressed record (State::verif_code, the
+   flags, whether its queue is empty) and the identifier bookkeeping are compared with the model, after
+   it the frames queued, the frames handed to the codec, the events handed to the application, the
+   queues cleared and the result. *)
+
+Definition initiator_code (i : initiator) : N := match i with User => 0 | Library => 1 | Remote => 2 end.
+Definition peer_code (p : peer) : N := match p with AwaitingHeaders => 0 | Streaming => 1 end.
+Definition opt_len (m : option (list N)) : N := match m with Some l => N.of_nat (length l) | None => 0 end.
+
+Definition perror_code (tag : N) (e : perror) : N * N * N * N * N * N :=
+  match e with
+  | EReset sid r i => (tag, 0, r, initiator_code i, sid, 0)
+  | EGoAway d r i => (tag, 1, r, initiator_code i, 0, N.of_nat (length d))
+  | EIo k m => (tag, 2, k, (match m with Some _ => 1 | None => 0 end), 0, opt_len m)
+  end.
+
+(* State::verif_code *)
+Definition state_code (s : state) : N * N * N * N * N * N :=
+  match s with
+  | Idle => (0, 0, 0, 0, 0, 0)
+  | ReservedLocal => (1, 0, 0, 0, 0, 0)
+  | ReservedRemote => (2, 0, 0, 0, 0, 0)
+  | Open l r => (3, peer_code l, peer_code r, 0, 0, 0)
+  | HalfClosedLocal p => (4, peer_code p, 0, 0, 0, 0)
+  | HalfClosedRemote p => (5, peer_code p, 0, 0, 0, 0)
+  | Closed EndStream => (6, 0, 0, 0, 0, 0)
+  | Closed (CError e) => perror_code 7 e
+  | Closed (ErrorAfterEndStream e) => perror_code 8 e
+  | Closed (ScheduledLibraryReset r) => (9, 0, r, 0, 0, 0)
+  end.
+
+Definition code_eqb (a b : N * N * N * N * N * N) : bool :=
+  let '(a1, a2, a3, a4, a5, a6) := a in
+  let '(b1, b2, b3, b4, b5, b6) := b in
+  (a1 =? b1) && (a2 =? b2) && (a3 =? b3) && (a4 =? b4) && (a5 =? b5) && (a6 =? b6).
+
+(* observed record: found (0 none, 1 linked, 2 reached by key only), code, pending_open, pending_push,
+   reset_at.is_some(), pending_send.is_empty(), buffered_send_data > 0 *)
+Definition orec := (N * (N * N * N * N * N * N) * bool * bool * bool * bool * bool)%type.
+
+Definition rec_matches (found : N) (r : srec) (o : orec) : bool :=
+  let '(f, code, popen, ppush, rexp, qempty, buffered) := o in
+  (f =? found) && code_eqb (state_code (s_state r)) code &&
+  Bool.eqb (s_popen r) popen && Bool.eqb (s_ppush r) ppush && Bool.eqb (s_rexp r) rexp &&
+  Bool.eqb (match s_q r with [] => true | _ => false end) qempty &&
+  (if qempty then Bool.eqb (match s_infl r with Some _ => true | None => false end) buffered else true).
+
+(* how the label addresses its record *)
+Inductive addr := ById (sid : N) | ByKey (k : N) | NoAddr.
+
+Definition addr_of (l : label) : addr :=
+  match l with
+  | LRecvHeaders sid _ _ _ _ | LRecvData sid _ _ | LRecvReset sid _ _ | LRecvWindowUpdate sid _
+  | LRecvPushPromise sid _ _ _ | LPoll2Reset sid _ _ _ _ => ById sid
+  | LSendResponse k _ _ | LSendInfo k _ _ | LSendData k _ _ | LSendTrailers k _
+  | LPushRequest k _ _ _ | LSendReset k _ _ | LDropLast k _ _ | LPollReset k _ => ByKey k
+  | _ => NoAddr
+  end.
+
+Definition pre_matches (st : conn) (l : label) (o : option orec) : bool :=
+  match o with
+  | None => true
+  | Some ob =>
+    match addr_of l with
+    | ById sid =>
+      match iget st sid with
+      | Some (_, r) => rec_matches 1 r ob
+      | None => let '(f, _, _, _, _, _, _) := ob in f =? 0
+      end
+    | ByKey k =>
+      match kget st k with
+      | Some r => rec_matches (match iget st (s_id r) with
+                               | Some (k', _) => if k' =? k then 1 else 2
+                               | None => 2
+                               end) r ob
+      | None => false
+      end
+    | NoAddr => true
+    end
+  end.
+
+Definition optn_eqb (o : option N) (v : Z) : bool :=
+  match o with None => (v =? -1)%Z | Some x => (Z.of_N x =? v)%Z end.
+
+(* send_next, recv_next, send_max, recv_max, refused (-1 = overflowed / none) *)
+Definition ids_match (st : conn) (o : option (Z * Z * Z * Z * Z)) : bool :=
+  match o with
+  | None => true
+  | Some (a, b, c, d, e) =>
+    optn_eqb (c_send_next st) a && optn_eqb (c_recv_next st) b &&
+    (Z.of_N (c_send_max st) =? c)%Z && (Z.of_N (c_recv_max st) =? d)%Z && optn_eqb (c_refused st) e
+  end.
+
+(* prio.queue_frame / prio.pop_other numbering: kind 0 DATA, 1 HEADERS, 2 PUSH_PROMISE, 3 RST_STREAM, 8 WINDOW_UPDATE;
+   (sid, kind, end_stream, informational, promised id or reset code) *)
+Definition qframe_code (sid : N) (f : qframe) : N * N * bool * bool * N :=
+  match f with
+  | QData eos => (sid, 0, eos, false, 0)
+  | QHeaders eos info => (sid, 1, eos, info, 0)
+  | QTrailers => (sid, 1, true, false, 0)
+  | QPush p => (sid, 2, false, false, p)
+  | QReset c => (sid, 3, false, false, c)
+  end.
+
+(* prio.pop_other does not print whether a HEADERS frame is informational *)
+Definition wframe_code (f : wframe) : N * N * bool * bool * N :=
+  match f with
+  | WFrame sid (QHeaders eos _) => (sid, 1, eos, false, 0)
+  | WFrame sid q => qframe_code sid q
+  | WWindowUpdate sid => (sid, 8, false, false, 0)
+  end.
+
+Definition fcode_eqb (a b : N * N * bool * bool * N) : bool :=
+  let '(a1, a2, a3, a4, a5) := a in
+  let '(b1, b2, b3, b4, b5) := b in
+  (a1 =? b1) && (a2 =? b2) && Bool.eqb a3 b3 && Bool.eqb a4 b4 && (a5 =? b5).
+
+Fixpoint list_eqb {A} (eq : A -> A -> bool) (a b : list A) : bool :=
+  match a, b with
+  | [], [] => true
+  | x :: a', y :: b' => eq x y && list_eqb eq a' b'
+  | _, _ => false
+  end.
+
+Definition appk_code (k : appk) : N :=
+  match k with AHeaders => 1 | AInfo => 2 | ATrailers => 3 | AData => 4 | APush => 5 end.
+
+Fixpoint outs_queued (o : list out) : list (N * N * bool * bool * N) :=
+  match o with
+  | [] => []
+  | OQueue sid f :: o' => qframe_code sid f :: outs_queued o'
+  | _ :: o' => outs_queued o'
+  end.
+Fixpoint outs_emitted (o : list out) : list (N * N * bool * bool * N) :=
+  match o with
+  | [] => []
+  | OEmit f :: o' => wframe_code f :: outs_emitted o'
+  | _ :: o' => outs_emitted o'
+  end.
+Fixpoint outs_app (o : list out) : list (N * N) :=
+  match o with
+  | [] => []
+  | OApp sid k :: o' => (sid, appk_code k) :: outs_app o'
+  | _ :: o' => outs_app o'
+  end.
+Fixpoint outs_cleared (o : list out) : list N :=
+  match o with
+  | [] => []
+  | OCleared sid :: o' => sid :: outs_cleared o'
+  | _ :: o' => outs_cleared o'
+  end.
+Fixpoint outs_result (o : list out) : option result :=
+  match o with
+  | [] => None
+  | ORes r :: _ => Some r
+  | _ :: o' => outs_result o'
+  end.
+Fixpoint outs_surface (o : list out) : option res :=
+  match o with
+  | [] => None
+  | OSurface _ r :: _ => Some r
+  | _ :: o' => outs_surface o'
+  end.
+
+Definition uerr_code (u : uerr) : N :=
+  match u with
+  | UUnexpectedFrameType => 1 | UInactiveStreamId => 2 | URejected => 3 | UOverflowedStreamId => 4
+  | UPeerDisabledServerPush => 5 | UMalformedHeaders => 6 | UPayloadTooBig => 7
+  end.
+
+(* observed result: (class, reason, initiator, stream id, debug data)
+   class 0 Ok, 1 Err(GoAway), 2 Err(Reset), 3 Err(Io), 4 Err(UserError code = reason), 5 Err(proto error, not looked into) *)
+Definition ores := (N * N * N * N * list N)%type.
+
+Definition result_matches (r : option result) (o : ores) : bool :=
+  let '(cls, reason, ini, sid, debug) := o in
+  match r with
+  | None | Some ROk | Some RIgnored => cls =? 0
+  | Some (RErr (EGoAway d rs i)) =>
+    ((cls =? 1) && (reason =? rs) && (ini =? initiator_code i) && list_N_eqb d debug) || (cls =? 5)
+  | Some (RErr (EReset s rs i)) =>
+    ((cls =? 2) && (reason =? rs) && (ini =? initiator_code i) && (sid =? s)) || (cls =? 5)
+  | Some (RErr (EIo _ _)) => (cls =? 3) || (cls =? 5)
+  | Some (RUser u) => (cls =? 4) && (reason =? uerr_code u)
+  end.
+
+(* observed poll_reset answer: 0 Pending (Ok(None)), 1 Ready(Ok(reason)), 2 Err(user error), 3 Err(other) *)
+Definition surface_matches (r : option res) (o : N * N) : bool :=
+  let '(cls, reason) := o in
+  match r with
+  | Some (RReason None) => cls =? 0
+  | Some (RReason (Some x)) => (cls =? 1) && (reason =? x)
+  | Some (RUserErr _) => cls =? 2
+  | Some (RProtoErr _) => cls =? 3
+  | _ => false
+  end.
+
+Record expect := mkE {
+  e_rec : option orec;
+  e_ids : option (Z * Z * Z * Z * Z);
+  e_queued : option (list (N * N * bool * bool * N));
+  e_emitted : option (list (N * N * bool * bool * N));
+  e_app : option (list (N * N));
+  e_cleared : option (list N);
+  e_res : option ores;
+  e_surface : option (N * N);
+  e_new : option N                    (* the identifier the section allocated (send_request, push_request) *)
+}.
+
+Fixpoint outs_opened_local (ro : role) (o : list out) : option N :=
+  match o with
+  | [] => None
+  | OOpened sid :: o' => if is_local_init ro sid then Some sid else outs_opened_local ro o'
+  | _ :: o' => outs_opened_local ro o'
+  end.
+
+Definition opt_check {A} (o : option A) (f : A -> bool) : bool :=
+  match o with None => true | Some x => f x end.
+
+Definition outs_match (ro : role) (o : list out) (e : expect) : bool :=
+  opt_check (e_queued e) (list_eqb fcode_eqb (outs_queued o)) &&
+  opt_check (e_emitted e) (list_eqb fcode_eqb (outs_emitted o)) &&
+  opt_check (e_app e) (list_eqb (fun a b => (fst a =? fst b) && (snd a =? snd b)) (outs_app o)) &&
+  opt_check (e_cleared e) (list_eqb N.eqb (outs_cleared o)) &&
+  opt_check (e_res e) (result_matches (outs_result o)) &&
+  opt_check (e_surface e) (surface_matches (outs_surface o)) &&
+  opt_check (e_new e) (fun n => match outs_opened_local ro o with Some m => m =? n | None => false end).
+
+(* 0 = agreement; otherwise 10 * (index of the label + 1) + reason:
+   1 record pre-state differs, 2 identifier bookkeeping differs, 3 outputs differ, 4 model Stuck, 5 model Panic *)
+Fixpoint check_run (st : conn) (i : N) (ls : list (label * expect)) : N :=
+  match ls with
+  | [] => 0
+  | (l, e) :: ls' =>
+    if negb (pre_matches st l (e_rec e)) then 10 * (i + 1) + 1
+    else if negb (ids_match st (e_ids e)) then 10 * (i + 1) + 2
+    else match step st l with
+         | Ok st1 o => if outs_match (c_role st) o e then check_run st1 (i + 1) ls' else 10 * (i + 1) + 3
+         | Stuck _ => 10 * (i + 1) + 4
+         | Panic _ => 10 * (i + 1) + 5
+         end
+  end.
+
+(* final state: (sid, code, pending_open, reset_at.is_some()) of every linked record, in any order *)
+Definition final_matches (st : conn) (fin : list (N * (N * N * N * N * N * N) * bool * bool)) : bool :=
+  (N.of_nat (length fin) =? N.of_nat (length (c_ids st))) &&
+  forallb (fun x => let '(sid, code, popen, rexp) := x in
+                    match iget st sid with
+                    | Some (_, r) => code_eqb (state_code (s_state r)) code && Bool.eqb (s_popen r) popen && Bool.eqb (s_rexp r) rexp
+                    | None => false
+                    end) fin.
+
+Fixpoint run_labels (st : conn) (ls : list (label * expect)) : option conn :=
+  match ls with
+  | [] => Some st
+  | (l, _) :: ls' => match step st l with Ok st1 _ => run_labels st1 ls' | _ => None end
+  end.
+
+Definition dispatch_case :=
+  (role * bool * list (label * expect) * option (list (N * (N * N * N * N * N * N) * bool * bool)))%type.
+
+Definition diag_dispatch (c : dispatch_case) : N :=
+  let '(ro, push, ls, fin) := c in
+  let r := check_run (init ro push) 0 ls in
+  if negb (r =? 0) then r
+  else match fin, run_labels (init ro push) ls with
+       | Some f, Some st => if final_matches st f then 0 else 7
+       | _, _ => 0
+       end.
+
+Definition check_dispatch (c : dispatch_case) : bool := diag_dispatch c =? 0.
+
+(* for the report of a disagreement: the number of the Stuck / Panic guard the model stopped at (0 = none) *)
+Fixpoint stop_code (st : conn) (ls : list (label * expect)) : N :=
+  match ls with
+  | [] => 0
+  | (l, _) :: ls' =>
+    match step st l with
+    | Ok st1 _ => stop_code st1 ls'
+    | Stuck n => n
+    | Panic n => 1000 + n
+    end
+  end.
+Definition diag_stop (c : dispatch_case) : N := let '(ro, push, ls, _) := c in stop_code (init ro push) ls.
